@@ -439,7 +439,8 @@ Inductive op :=
 | OCheck (ti : option tinfo) (q : query)
 | OBatch (reqs : list (option tinfo * query))
 | OTick (dt : Z)
-| ODropPerm (k : pkey) | ODropTok (tid : N).    (* eviction at capacity / the cleanup loop: any entry may vanish *)
+| ODropPerm (k : pkey) | ODropTok (tid : N)     (* eviction at capacity: any entry may vanish *)
+| OJanitor.                                     (* cleanupExpiredCache, as run by the once-a-minute loop *)
 
 Inductive output := OutMut (ok : bool) (id : N) | OutDec (ds : list decision) | OutNone.
 
@@ -451,6 +452,12 @@ Definition step (c : cfg) (s : st) (o : op) : output * st :=
   | OTick dt => (OutNone, {| s_db := s_db s; s_now := s_now s + Z.max 0 dt; s_perm := s_perm s; s_tok := s_tok s |})
   | ODropPerm k => (OutNone, {| s_db := s_db s; s_now := s_now s; s_perm := remove pkey_eqb k (s_perm s); s_tok := s_tok s |})
   | ODropTok t => (OutNone, {| s_db := s_db s; s_now := s_now s; s_perm := s_perm s; s_tok := remove N.eqb t (s_tok s) |})
+  | OJanitor =>
+      (* token data older than the TTL (now.Sub(loadedAt) > ttl) and decisions past their expiry
+         (now.After(expiresAt)) are dropped - independently of each other *)
+      (OutNone, {| s_db := s_db s; s_now := s_now s;
+                   s_perm := filter (fun e => negb (snd (snd e) <? s_now s)) (s_perm s);
+                   s_tok := filter (fun e => negb (c_ttl c <? s_now s - snd (snd e))) (s_tok s) |})
   end.
 
 Fixpoint run (c : cfg) (s : st) (ops : list op) : list output :=
